@@ -154,6 +154,42 @@ pub fn check_list(c: &ListCase) -> CaseResult {
                 ));
             }
         }
+        // ---- equality against near relatives: a prefix, an extension, another
+        // tail, one element changed - `==` and `!=` in both operand orders, on
+        // values and on cons cells, agree with the model
+        let has_nan = model_value.any(&|m| matches!(m, MV::F(b) if f64::from_bits(*b).is_nan()));
+        if n > 0 && !has_nan {
+            let mut relatives: Vec<(&'static str, MV)> = Vec::new();
+            for k in [1usize, n / 2, n.saturating_sub(1)] {
+                if k > 0 && k < n {
+                    relatives.push(("prefix-same-tail", MV::List(ys[..k].to_vec(), Box::new(tt.clone()))));
+                    relatives.push(("prefix-proper", MV::list(ys[..k].to_vec())));
+                }
+            }
+            let mut ext = ys.clone();
+            ext.push(ys[0].clone());
+            relatives.push(("extension", MV::List(ext.clone(), Box::new(tt.clone()))));
+            relatives.push(("extension-proper", MV::list(ext)));
+            relatives.push(("other-tail", MV::List(ys.clone(), Box::new(if tt == MV::Null { MV::U(0) } else { MV::Null }))));
+            relatives.push(("same", MV::List(ys.clone(), Box::new(tt.clone()))));
+            let mut changed = ys.clone();
+            let last = changed.len() - 1;
+            changed[last] = if changed[last] == MV::U(0) { MV::U(1) } else { MV::U(0) };
+            relatives.push(("last-element-changed", MV::List(changed, Box::new(tt.clone()))));
+            let me = model_value.normalize();
+            for (name, r) in relatives {
+                let r = r.normalize();
+                let rv = r.to_value();
+                let want = r == me;
+                let got = [l == rv, rv == l, !(l != rv), !(rv != l), l.as_cons() == rv.as_cons(), rv.as_cons() == l.as_cons()];
+                if got.iter().any(|g| *g != want) {
+                    return Err((
+                        format!("op=eq relative={} shape={}", name, shape),
+                        format!("{} compared with its {} {}: expected equal={}, got (l==r, r==l, !(l!=r), !(r!=l), cons l==r, cons r==l) = {:?}", short(&l), name, short(&rv), want, got),
+                    ));
+                }
+            }
+        }
         // ---- predicates
         let (il, idl) = (l.is_list(), l.is_dotted_list());
         let (eil, eidl) = if n == 0 {
